@@ -125,6 +125,13 @@ pub broadcast group group_vx_axioms {
 pub assume_specification[ String::len ](s: &String) -> (r: usize)
     ensures r == vstd::utf8::encode_utf8(s@).len();
 
+/// `String::truncate(n)`: no effect beyond the end; panics unless `n` is a char boundary
+pub assume_specification[ String::truncate ](s: &mut String, n: usize)
+    requires n as int > vstd::utf8::encode_utf8(old(s)@).len() || exists|k: int| 0 <= k <= old(s)@.len() && #[trigger] boff(old(s)@, k) == n as int,
+    ensures
+        n as int >= vstd::utf8::encode_utf8(old(s)@).len() ==> final(s)@ == old(s)@,
+        forall|k: int| 0 <= k <= old(s)@.len() && #[trigger] boff(old(s)@, k) == n as int ==> final(s)@ == old(s)@.subrange(0, k);
+
 // ---------------------------------------------------------------- str slicing
 /// r is the byte sub-range [a,b) of s
 pub open spec fn is_slice(s: &str, a: int, b: int, r: &str) -> bool {
